@@ -57,7 +57,7 @@ theorem C17_tie_role_switch (d thr q s g : Nat) :
     roleBase ⟨Gen.timer_BNRoleProposer, d, thr, q, s, g⟩ = none ∧
     roleBase ⟨Gen.timer_BNRoleValidatorRegistration, d, thr, q, s, g⟩ = none ∧
     roleBase ⟨Gen.timer_BNRoleVoluntaryExit, d, thr, q, s, g⟩ = none ∧
-    Gen.src_timer_RoundTimeout = "60093dfc594931c2" ∧
+    Gen.src_timer_RoundTimeout = "07caec89cb3fee31" ∧
     Gen.calls_timer_RoundTimeout =
       ["SlotDurationSec", "SlotDurationSec", "Duration", "int", "Duration", "Duration", "int", "GetSlotStartTime", "Until", "Add"] := by
   refine ⟨?_, ?_, ?_, ?_, ?_, ?_, ?_, by decide, by decide⟩ <;>
@@ -76,7 +76,7 @@ theorem C17_tie_timer_calls :
     `UponRoundTimeout`, whose first guard is `CanProcessMessages`), reached from `handleEventMessage` -/
 theorem C17_tie_onTimeout_guards :
     Gen.calls_timer_OnTimeout = ["GetTimeoutData", "FindInstance", "IsDecided", "UponRoundTimeout"] ∧
-    Gen.src_timer_OnTimeout = "2b04f6a22f7ceb3f" ∧
+    Gen.src_timer_OnTimeout = "a99e33db61d236fa" ∧
     Gen.calls_timer_UponRoundTimeout = ["CanProcessMessages", "bumpToRound", "TimeoutForRound", "CreateRoundChange", "Broadcast"] ∧
     Gen.calls_timer_handleEventMessage = ["OnTimeout", "OnExecuteDuty"] ∧
     Gen.timer_FirstRound = 1 := by decide
